@@ -544,6 +544,10 @@ def stale_captures(repo, rep):
 
 
 def run(repo, rep, tier):
+    rep.rule("R-C11-16", "(shared with C05) direction bin widths are taken circularly: the width enters the variance the regridding conserves and the "
+                        "energy <-> density conversion of the writers / readers")
+    from .c05 import circular_width
+    circular_width(repo, rep, "R-C11-16")
     rep.rule("R-C11-12", "every parameter of the functions behind this property is read (writers): none is accepted and then ignored, and no control parameter (cutoff, limit, tolerance, window, count, switch) is replaced by another value before use (coercion and default filling aside)")
     from .shared import unused_parameters
     unused_parameters(repo, rep, "R-C11-12", ("wavespectra.output",), "writers")
